@@ -108,6 +108,9 @@ class InputsMachine(Machine):
 
     def __init__(self, fault_tier=False):
         self.fault_tier = fault_tier
+        # injected exceptions may corrupt process-global state of the
+        # libraries: every run of the fault tier gets its own process
+        self.isolate_runs = bool(fault_tier)
         self.name = 'inputs-fault' if fault_tier else 'inputs'
         self.real_components = [
             'aperture_photometry / ApertureStats / PixelAperture methods',
